@@ -393,11 +393,15 @@ class ColumnBackend(PolarsSchemaBackend):
             default_value = schema.default
         else:
             default_value = pl.lit(schema.default, dtype=schema.dtype.type)
-        expr = pl.col(schema.selector)
-        if is_float_dtype(check_obj, schema.selector):
-            # a float column has two missing values, NaN and null
-            expr = expr.fill_nan(default_value).fill_null(default_value)
-        else:
-            expr = expr.fill_null(default_value)
+        # a float column has two missing values, NaN and null; a selector
+        # (regex) may match float columns next to columns of other types
+        exprs = []
+        for name in get_lazyframe_column_names(
+            check_obj.select(pl.col(schema.selector))
+        ):
+            expr = pl.col(name)
+            if is_float_dtype(check_obj, name):
+                expr = expr.fill_nan(default_value)
+            exprs.append(expr.fill_null(default_value))
 
-        return check_obj.with_columns(expr)
+        return check_obj.with_columns(exprs)
